@@ -209,6 +209,203 @@ def inline_body(b, helpers, bodies, stats):
     return b
 
 
+# ---------------------------------------------------------------------------------------------------------------
+# std combinators applied to a closure of the crate: `opt.map(|x| ..)`, `poll.map(..)`, `res.map_err(..)`, ...
+# The call is replaced by its definition: a switch on the scrutinee, the closure body inlined in the arm that calls
+# it, the closure value dropped where the std implementation drops it.  `match` written out by hand and the
+# combinator form therefore look the same to the rules.
+
+OPTION = [["0", "None"], ["1", "Some"]]
+POLL = [["0", "Ready"], ["1", "Pending"]]
+RESULT = [["0", "Ok"], ["1", "Err"]]
+# def path -> (variants, closure arg position, {variant: action}, payload type index in def_args per variant)
+#   actions: ("call", wrap_variant|None)   dest = Wrap(closure(payload)) / closure(payload)
+#            ("call0", wrap_variant|None)  dest = closure()
+#            ("unit", variant)             dest = Variant (no payload)
+#            ("rewrap", variant)           dest = Variant(move payload)
+#            ("payload",)                  dest = move payload
+#            ("scrut",)                    dest = move scrutinee
+#            ("bool", v)                   dest = const v
+COMBINATORS = {
+    "core::option::Option::<T>::map": (OPTION, 1, {"None": ("unit", "None"), "Some": ("call", "Some")}, {"Some": 0}),
+    "core::option::Option::<T>::and_then": (OPTION, 1, {"None": ("unit", "None"), "Some": ("call", None)}, {"Some": 0}),
+    "core::option::Option::<T>::unwrap_or_else": (OPTION, 1, {"None": ("call0", None), "Some": ("payload",)}, {"Some": 0}),
+    "core::option::Option::<T>::or_else": (OPTION, 1, {"None": ("call0", None), "Some": ("scrut",)}, {"Some": 0}),
+    "core::option::Option::<T>::ok_or_else": (OPTION, 1, {"None": ("call0", "Err"), "Some": ("rewrap", "Ok")}, {"Some": 0}),
+    "core::option::Option::<T>::is_some_and": (OPTION, 1, {"None": ("bool", "0"), "Some": ("call", None)}, {"Some": 0}),
+    "core::option::Option::<T>::is_none_or": (OPTION, 1, {"None": ("bool", "1"), "Some": ("call", None)}, {"Some": 0}),
+    "core::task::Poll::<T>::map": (POLL, 1, {"Pending": ("unit", "Pending"), "Ready": ("call", "Ready")}, {"Ready": 0}),
+    "core::result::Result::<T, E>::map": (RESULT, 1, {"Ok": ("call", "Ok"), "Err": ("rewrap", "Err")}, {"Ok": 0, "Err": 1}),
+    "core::result::Result::<T, E>::map_err": (RESULT, 1, {"Ok": ("rewrap", "Ok"), "Err": ("call", "Err")}, {"Ok": 0, "Err": 1}),
+    "core::result::Result::<T, E>::and_then": (RESULT, 1, {"Ok": ("call", None), "Err": ("rewrap", "Err")}, {"Ok": 0, "Err": 1}),
+    "core::result::Result::<T, E>::unwrap_or_else": (RESULT, 1, {"Ok": ("payload",), "Err": ("call", None)}, {"Ok": 0, "Err": 1}),
+}
+
+
+def _closure_def(b, local):
+    """The crate closure a local is built from: its only definition is a closure aggregate (returns (path, stmt))."""
+    found = None
+    for blk in b["blocks"]:
+        for s in blk["stmts"]:
+            if s["k"] == "assign" and s["place"]["l"] == local and not s["place"]["p"]:
+                rv = s["rv"]
+                if rv["k"] == "aggregate" and rv.get("agg") == "closure" and found is None:
+                    found = (rv["closure"], s)
+                else:
+                    return None
+        t = blk["term"]
+        if t["k"] == "call" and t["dest"]["l"] == local and not t["dest"]["p"]:
+            return None
+    return found
+
+
+def expand_combinator(b, i, closures, stats):
+    blk = b["blocks"][i]
+    t = blk["term"]
+    f = t["func"]
+    if not (f["k"] == "const" and "fn" in f):
+        return False
+    spec = COMBINATORS.get(f["fn"].get("def"))
+    if spec is None or t["target"] is None:
+        return False
+    variants, cpos, actions, pidx = spec
+    if len(t["args"]) <= cpos:
+        return False
+    scrut, cl = t["args"][0], t["args"][cpos]
+    if scrut["k"] not in ("copy", "move") or cl["k"] != "move" or cl["place"]["p"]:
+        return False
+    cd = _closure_def(b, cl["place"]["l"])
+    if cd is None or cd[0] not in closures:
+        return False
+    c = closures[cd[0]]
+    if len(b["blocks"]) + len(c["blocks"]) + 8 > MAX_BLOCKS:
+        return False
+    span = t["span"]
+    dest, target = t["dest"], t["target"]
+    def_args = f["fn"].get("def_args") or []
+    out_adt = dest["ty"].split("<")[0]
+    sp = scrut["place"]
+    cplace = cl["place"]
+    env_by_ref = c["locals"][1].startswith("&")
+
+    def new_local(ty):
+        b["locals"].append(ty)
+        return len(b["locals"]) - 1
+
+    def new_block(stmts, term):
+        b["blocks"].append({"stmts": stmts, "term": term, "cleanup": False})
+        return len(b["blocks"]) - 1
+
+    def payload(vname):
+        vi = [int(v) for v, n in variants if n == vname][0]
+        ty = def_args[pidx[vname]] if vname in pidx and pidx[vname] < len(def_args) else "?"
+        return {"l": sp["l"], "p": list(sp["p"]) + [{"k": "downcast", "variant": vname, "idx": vi},
+                                                    {"k": "field", "i": 0, "name": "0", "ty": ty}], "ty": ty}
+
+    def assign(place, rv):
+        return {"k": "assign", "place": copy.deepcopy(place), "rv": rv, "span": span}
+
+    def agg(variant, ops):
+        return {"k": "aggregate", "agg": "adt", "adt": out_adt, "adt_args": [], "variant": variant,
+                "fields": ["0"] if ops else [], "ops": ops}
+
+    def drop_closure_then(tgt):
+        return new_block([], {"k": "drop", "place": copy.deepcopy(cplace), "needs_drop": True, "target": tgt, "unwind": None, "span": span})
+
+    dl = new_local("isize")
+    blk["stmts"].append(assign({"l": dl, "p": [], "ty": "isize"}, {"k": "discr", "place": copy.deepcopy(sp), "variants": variants}))
+    unreach = new_block([], {"k": "unreachable", "span": span})
+    targets = []
+    for val, vname in variants:
+        act = actions[vname]
+        if act[0] in ("call", "call0"):
+            loff = len(b["locals"])
+            b["locals"].extend(c["locals"])
+            pre = []
+            envp = {"l": loff + 1, "p": [], "ty": c["locals"][1]}
+            if env_by_ref:
+                pre.append(assign(envp, {"k": "ref", "mut": c["locals"][1].startswith("&mut"), "place": copy.deepcopy(cplace)}))
+            else:
+                pre.append(assign(envp, {"k": "use", "op": {"k": "move", "place": copy.deepcopy(cplace)}}))
+            if act[0] == "call" and c["arg_count"] >= 2:
+                pre.append(assign({"l": loff + 2, "p": [], "ty": c["locals"][2]}, {"k": "use", "op": {"k": "move", "place": payload(vname)}}))
+            after = drop_closure_then(target) if env_by_ref else target
+            boff = len(b["blocks"]) + 1
+            entry = new_block(pre, {"k": "goto", "target": boff, "span": span})
+            assert entry == boff - 1
+            for cblk in c["blocks"]:
+                nb = copy.deepcopy(cblk)
+                _remap_block(nb, loff, boff)
+                ct = nb["term"]
+                if ct["k"] == "return":
+                    ret = {"k": "move", "place": {"l": loff, "p": [], "ty": c["locals"][0]}}
+                    rv = agg(act[1], [ret]) if act[1] else {"k": "use", "op": ret}
+                    nb["stmts"].append(assign(dest, rv))
+                    nb["term"] = {"k": "goto", "target": after, "span": ct["span"]}
+                b["blocks"].append(nb)
+            targets.append([val, entry])
+        else:
+            if act[0] == "unit":
+                rv = agg(act[1], [])
+            elif act[0] == "rewrap":
+                rv = agg(act[1], [{"k": "move", "place": payload(vname)}])
+            elif act[0] == "payload":
+                rv = {"k": "use", "op": {"k": "move", "place": payload(vname)}}
+            elif act[0] == "scrut":
+                rv = {"k": "use", "op": {"k": "move", "place": copy.deepcopy(sp)}}
+            else:
+                rv = {"k": "use", "op": {"k": "const", "ty": "bool", "bits": act[1]}}
+            after = drop_closure_then(target)
+            targets.append([val, new_block([assign(dest, rv)], {"k": "goto", "target": after, "span": span})])
+    blk["term"] = {"k": "switch", "discr": {"k": "move", "place": {"l": dl, "p": [], "ty": "isize"}}, "targets": targets,
+                   "otherwise": unreach, "span": span, "inlined": f["fn"].get("def") + " with " + cd[0]}
+    stats[cd[0]] = stats.get(cd[0], 0) + 1
+    return True
+
+
+def expand_combinators(j):
+    """Expand std-combinator calls taking a crate closure in every function body.  Returns
+    {closure path: number of expanded call sites}."""
+    closures = {}
+    for b in j["bodies"]:
+        if b["kind"] == "Closure" and b["promoted"] is None:
+            closures.setdefault(b["path"], b)
+    originals = {p: copy.deepcopy(b) for p, b in closures.items()}
+    stats = {}
+    for b in j["bodies"]:
+        if b["kind"] not in ("Fn", "AssocFn", "Closure") or b["promoted"] is not None:
+            continue
+        changed = True
+        rounds = 0
+        while changed and rounds < 6:
+            changed = False
+            rounds += 1
+            for i in range(len(b["blocks"])):
+                blk = b["blocks"][i]
+                if blk["term"]["k"] == "call" and not blk["cleanup"]:
+                    if expand_combinator(b, i, originals, stats):
+                        changed = True
+    # a closure is analysed in place only when every construction of it feeds an expanded call
+    built = {}
+    for b in j["bodies"]:
+        for blk in b["blocks"]:
+            for s in blk["stmts"]:
+                if s["k"] == "assign" and s["rv"]["k"] == "aggregate" and s["rv"].get("agg") == "closure":
+                    built[s["rv"]["closure"]] = built.get(s["rv"]["closure"], 0) + 1
+    remaining_uses = {}
+    for b in j["bodies"]:
+        for blk in b["blocks"]:
+            t = blk["term"]
+            if t["k"] in ("call", "tailcall"):
+                for a in t["args"]:
+                    if a["k"] in ("move", "copy") and a["place"]["ty"].startswith("{closure@"):
+                        cd = _closure_def(b, a["place"]["l"]) if not a["place"]["p"] else None
+                        if cd:
+                            remaining_uses[cd[0]] = remaining_uses.get(cd[0], 0) + 1
+    fully = sorted(p for p in stats if remaining_uses.get(p, 0) == 0)
+    return stats, fully
+
+
 def inline_facts(j):
     """Inline helper calls in all function bodies of the fact JSON (in place).  Returns (helpers, stats)."""
     helpers, bodies = helper_set(j)
@@ -227,5 +424,7 @@ def inline_facts(j):
                 if nm in helpers and b["path"] not in helpers:
                     remaining.add(nm)
     fully = sorted(h for h in helpers if h in stats and h not in remaining)
-    j["inlined_helpers"] = {"helpers": sorted(helpers), "call_sites_inlined": stats, "fully_inlined": fully}
+    cstats, cfully = expand_combinators(j)
+    j["inlined_helpers"] = {"helpers": sorted(helpers), "call_sites_inlined": stats, "fully_inlined": fully + cfully,
+                            "combinator_closures": cstats}
     return helpers, stats
